@@ -358,6 +358,14 @@ def worker(job):
     import compat
     compat.install()
     part = common.Part()
+    if 'replay' in job and job['replay']['cfg'].get('app'):
+        from checks import c13b_app
+        rp = job['replay']
+        obs = c13b_app.run_one(rp['cfg'], sched.ReplayChooser(rp['vector']))
+        c13b_app.judge(obs, part, rp)
+        part.evaluations += 1
+        part.sample({'cfg': rp['cfg'], 'trace': obs['trace'], 'log': obs['log'][-20:], 'main_done': obs['main_done']})
+        return part.dump()
     if 'replay' in job:
         rp = job['replay']
         obs = run_one(rp['cfg'], sched.ReplayChooser(rp['vector']))
@@ -403,6 +411,15 @@ def worker(job):
             part.nontrivial_case(key)
         if n % 97 == 0:
             part.sample({'cfg': cfg, 'trace': obs['trace'][:30], 'log': obs['log'][:14]})
+    # monitor B: the application's pipeline series (start, download, skippable ones, stop) with stop requests and pauses
+    from checks import c13b_app
+    for n in range(job.get('n_app', 0)):
+        cfg = c13b_app.gen_cfg(rng)
+        chooser = sched.RandomChooser(rng.randrange(1 << 30), ready_bias=rng.choice([0.2, 0.5, 0.8]))
+        obs = c13b_app.run_one(cfg, chooser)
+        c13b_app.judge(obs, part, {'cfg': cfg, 'vector': chooser.vector})
+        part.evaluations += 1
+        schedules.add(common.jhash([cfg, chooser.vector]))
     part.count('distinct_schedules', len(schedules))
     return part.dump()
 
@@ -428,7 +445,8 @@ def main():
         jobs = []
         for i in range(nj):
             jobs.append({'seed': check.seed * 1000003 + i, 'dfs_cfgs': DIRECTED[i::nj], 'dfs_runs': dfs_runs,
-                         'dfs_depth': 60 if check.thorough else 30, 'n_random': n_random // nj})
+                         'dfs_depth': 60 if check.thorough else 30, 'n_random': n_random // nj,
+                         'n_app': int((200000 if check.thorough else 6000) * check.scale) // nj})
         res = par.run_jobs(target, jobs, check.jobs, timeout=7200 if check.thorough else 900)
     for r in res:
         if '_error' in r:
@@ -436,7 +454,7 @@ def main():
         else:
             check.merge(r)
     check.finish(required_counters=() if check.args.replay else (
-        'process_returned', 'all_items_exactly_once', 'dfs_runs', 'random_runs'))
+        'process_returned', 'all_items_exactly_once', 'dfs_runs', 'random_runs', 'app_run_returned', 'app_stop_returned'))
 
 
 if __name__ == '__main__':
